@@ -334,11 +334,20 @@ func (c *fmtCmd) fmtTxtarFile(filename string) error {
 }
 
 func writeAtomically(b []byte, filename string) error {
+	info, err := os.Stat(filename)
+	if err != nil {
+		return err
+	}
 	tempFile, err := os.CreateTemp(filepath.Dir(filename), "evy")
 	if err != nil {
 		return fmt.Errorf("%s: %w", filename, err)
 	}
 	if _, err := tempFile.Write(b); err != nil {
+		return fmt.Errorf("%s: %w", filename, err)
+	}
+	// CreateTemp creates the file with mode 0600; the formatted file keeps
+	// the permission bits of the original.
+	if err := tempFile.Chmod(info.Mode().Perm()); err != nil {
 		return fmt.Errorf("%s: %w", filename, err)
 	}
 	if err := tempFile.Close(); err != nil {
